@@ -357,7 +357,7 @@ func runAnswer(c AnsCase) *evid.Failure {
 	if len(c.Msgs) >= 2 || nc > 0 {
 		evid.NonTrivialKey("answer", fmt.Sprintf("%+v", c))
 	}
-	if classes["arp:request-own"] || classes["ndp:solicit-own"] {
+	if (classes["arp:request-own"] || classes["ndp:solicit-own"]) && evid.ShardIdx == 0 && len(c.Msgs) > 1 {
 		evid.Sample("answer", c)
 	}
 	return nil
